@@ -85,11 +85,24 @@ EXPLICIT = {}
 
 def expected_alias(fd, p, convention):
     """the keyword name the property promises: explicit decorator alias, else the convention's translation of the Python name"""
-    from yaql.language import specs
     k = (id(fd.payload), p.name)
     if k in EXPLICIT:
         return EXPLICIT[k]
-    return specs.convert_parameter_name(p.name, convention)
+    # computed here, not by the library: trailing underscores (which only keep a Python name off a keyword / builtin) are not
+    # part of the yaql name; camelCase turns every inner "_x" into "X", the Python convention keeps the rest as it is
+    n = p.name.rstrip('_')
+    if type(convention).__name__ != 'CamelCaseConvention':
+        return n
+    out = ''
+    i = 0
+    while i < len(n):
+        if n[i] == '_' and i > 0 and i + 1 < len(n) and (n[i + 1].isalnum() or n[i + 1] == '_'):
+            out += n[i + 1].upper()
+            i += 2
+        else:
+            out += n[i]
+            i += 1
+    return out
 
 
 def family(base, rot):
@@ -140,6 +153,7 @@ def sweep(rep, wd, engine, ctx, label, quick, rng):
         rep.extra['signatures:' + label] = len(sigs)
         # argument values per signature
         argvals = {}
+        falsyvals = {}
 
         def choose_args(si):
             name, fd, ps = infos[si]
@@ -165,6 +179,27 @@ def sweep(rep, wd, engine, ctx, label, quick, rng):
                 if text and evaluate(text, binds)[0] == 'ok':
                     return vals
             return best
+
+        FALSY = [0, False, '', [], {}, None, 0.0]
+
+        def falsy_args(si, vals):
+            """the chosen tuple with every defaulted parameter replaced by a false-like value of an accepted type that
+            differs from its default (0, false, '', [], {}, null): passing such a value is not the same as omitting it"""
+            name, fd, ps = infos[si]
+            out = list(vals)
+            changed = False
+            for j, p in enumerate(ps):
+                if p.default is specs.NO_DEFAULT or vals[j][0] != 'val':
+                    continue
+                for c in FALSY:
+                    try:
+                        if p.value_type.check(c, ctx, engine) and not (c == p.default and type(c) is type(p.default)):
+                            out[j] = ('val', c)
+                            changed = True
+                            break
+                    except Exception:
+                        continue
+            return out if changed else None
 
         def render(name, fd, ps, vals, given, m, form, explicit):
             binds = {}
@@ -237,37 +272,42 @@ def sweep(rep, wd, engine, ctx, label, quick, rng):
                 continue
             if si not in argvals:
                 argvals[si] = choose_args(si)
-            vals = argvals[si]
-            text, binds = render(name, fd, ps, vals, given, int(sp['m']), str(sp['form']), bool(sp['explicit']))
-            if text is None:
-                continue
-            rk = (si, given)
-            if rk not in ref:
-                mm = max(given) if given else 0
-                form0 = 'func' if fd.is_function else 'method'
-                t0, b0 = render(name, fd, ps, vals, given, mm, form0, False)
-                ref[rk] = (t0, evaluate(t0, b0)) if t0 else (None, None)
-            t0, r0 = ref[rk]
-            if t0 is None or r0 == ('exc', 'timeout'):
-                continue
-            got = evaluate(text, binds)
-            if name in multi and got[0] == r0[0]:
-                # several overloads share this name: repeat in fresh contexts (each enumerates its overload sets in its own order)
-                for fc in fresh:
-                    g2 = evaluate(text, binds, fc)
-                    if not (g2[0] == r0[0] and (g2[1] == r0[1] if g2[0] == 'exc' else c09.deep_eq(g2[1], r0[1]))):
-                        got = g2
-                        break
-            n += 1
-            rep.evaluations += 1
-            if r0[0] == 'ok':
-                nvalid += 1
-            same = got[0] == r0[0] and (got[1] == r0[1] if got[0] == 'exc' else c09.deep_eq(got[1], r0[1]))
-            if not same:
-                rep.violation('C12/spelling-differs/%s/%s' % (label, name), '%s gives %r but the reference spelling %s gives %r' % (text, got, t0, r0),
-                              {'text': text, 'reference': t0, 'binds': {k: repr(v) for k, v in binds.items()}})
-            if n % 701 == 1:
-                rep.sample({'function': name, 'reference': t0, 'spelling': text, 'result': repr(got)[:80]})
+                falsyvals[si] = falsy_args(si, argvals[si])
+            for variant, vals in (('chosen', argvals[si]), ('falsy', falsyvals[si])):
+                if vals is None:
+                    continue
+                if variant == 'falsy' and not any(ps[i - 1].default is not specs.NO_DEFAULT for i in given):
+                    continue
+                text, binds = render(name, fd, ps, vals, given, int(sp['m']), str(sp['form']), bool(sp['explicit']))
+                if text is None:
+                    continue
+                rk = (si, given, variant)
+                if rk not in ref:
+                    mm = max(given) if given else 0
+                    form0 = 'func' if fd.is_function else 'method'
+                    t0, b0 = render(name, fd, ps, vals, given, mm, form0, False)
+                    ref[rk] = (t0, evaluate(t0, b0)) if t0 else (None, None)
+                t0, r0 = ref[rk]
+                if t0 is None or r0 == ('exc', 'timeout'):
+                    continue
+                got = evaluate(text, binds)
+                if name in multi and got[0] == r0[0]:
+                    # several overloads share this name: repeat in fresh contexts (each enumerates its overload sets in its own order)
+                    for fc in fresh:
+                        g2 = evaluate(text, binds, fc)
+                        if not (g2[0] == r0[0] and (g2[1] == r0[1] if g2[0] == 'exc' else c09.deep_eq(g2[1], r0[1]))):
+                            got = g2
+                            break
+                n += 1
+                rep.evaluations += 1
+                if r0[0] == 'ok':
+                    nvalid += 1
+                same = got[0] == r0[0] and (got[1] == r0[1] if got[0] == 'exc' else c09.deep_eq(got[1], r0[1]))
+                if not same:
+                    rep.violation('C12/spelling-differs/%s/%s' % (label, name), '%s with %s gives %r but the reference spelling %s gives %r' % (
+                        text, {k: v for k, v in binds.items()}, got, t0, r0), {'text': text, 'reference': t0, 'binds': {k: repr(v) for k, v in binds.items()}})
+                if n % 701 == 1:
+                    rep.sample({'function': name, 'reference': t0, 'spelling': text, 'result': repr(got)[:80]})
         rep.extra['spellings_evaluated:' + label] = n
         rep.traces += n
         rep.nontrivial += nvalid
